@@ -176,7 +176,9 @@ def execute(d, inp, cuts, entries):
         obs["rcs"].append(rc)
         if rc != 0 and not obs["err"]:
             obs["err"] = d.call("s0", "c", "GetErrorString")[:600]
-        t = d.obs("s0", "c", "t")
+        # the component list is read after every call (a client may do so): what is read after the last piece is the observable
+        t = d.obs("s0", "c", "tc")
+        comps_after_last_piece = t["components"]
         for u in t["users"]:
             rows = canon_rows(t["sel"][str(u)]["table"])
             obs["rows"].setdefault(str(u), []).extend(rows)
@@ -190,7 +192,7 @@ def execute(d, inp, cuts, entries):
         rows = canon_rows(t["sel"][str(u)]["table"])
         obs["rows"].setdefault(str(u), []).extend(rows)
         obs["nrows"] += len(rows)
-    obs["components"] = t["components"]
+    obs["components"] = [comps_after_last_piece, t["components"]]      # after the last piece / after the extra DUMP call
     return obs
 
 
